@@ -263,6 +263,17 @@ var builtinCases = []shapeCase{
 	{"[a: b + c, d: e]", "[:a: (b + c), d: e]"},
 	{"{x: a + b, y: [c]}", "{x: (a + b), y: [c]}"},
 	{"a.f(b, c)", "a.f(b, c)"},
+	// calls with an empty argument list, alone and as the last thing of a larger node
+	{"f()", "f()"},
+	{"a.m()", "a.m()"},
+	{"f()()", "f()()"},
+	{"f() + g()", "(f() + g())"},
+	{"[a, f()]", "[a, f()]"},
+	{"-f()", "(- f())"},
+	{"c ? f() : g()", "(c ? f() : g())"},
+	{"[]", "[]"},
+	{"[:]", "[:]"},
+	{"{}", "{}"},
 	{"a % b / c", "((a % b) / c)"},
 	{"c ? x : -a + b", "(c ? x : ((- a) + b))"},
 	{"c ? -x * y : !a && b", "(c ? ((- x) * y) : ((! a) && b))"},
@@ -577,4 +588,32 @@ func H08_tables() {
 		sv.Logf("%s: got %s (%s), expected %s", c.src, shape, class, c.want)
 	}
 	sv.Assert("tree-does-not-depend-on-registration-order", class == "ok" && shape == c.want)
+}
+
+// H08_sequence: a parser's tree is dictated by its own table alone, whatever
+// tables other parsers of the same process were built from before. Two tables
+// over the same two operators are used one after the other; the powers come
+// from a small set with fractional members (7, 7.5, 8, 8.5), so two tables
+// may differ in nothing but the fractional part of one power.
+func H08_sequence() {
+	pows := []oper.BP{7, 7.5, 8, 8.5}
+	src := "a @ b # c @ d # e"
+	toks := []string{"a", "@", "b", "#", "c", "@", "d", "#", "e"}
+	for round := 0; round < 2; round++ {
+		tag := []string{"first", "second"}[round]
+		pa := pows[sv.Choice(tag+".bp@", len(pows))]
+		pb := pows[sv.Choice(tag+".bp#", len(pows))]
+		ops := map[string]refOp{"@": {pa, 0}, "#": {pb, 0}}
+		table := []oper.Operator{
+			{Kind: "@", BP: pa, Fixity: oper.INFIX_L},
+			{Kind: "#", BP: pb, Fixity: oper.INFIX_L},
+		}
+		rp := &refParser{ops: ops, toks: toks}
+		want := rp.parse(0, false)
+		shape, class := parseWith(table, src)
+		if class != "ok" || shape != want {
+			sv.Logf("%s table (@ %v, # %v): got %s (%s), the declarations dictate %s", tag, pa, pb, shape, class, want)
+		}
+		sv.Assert("tree-is-dictated-by-this-parser's-own-table:"+tag, class == "ok" && shape == want)
+	}
 }
